@@ -134,6 +134,28 @@ class SymArr(_np.ndarray):
         _np.ndarray.__setitem__(self, key, value)
 
 
+def _record_guard(kind, a, b, args, kw):
+    """Tolerance guards (np.isclose / np.allclose / math.isclose) met on symbolic operands are idealised to equality in the proof (assumption A8);
+    each one is recorded so that the runner can PROBE it: solve for inputs that sit inside the tolerance without being equal and run the contract
+    concretely on the real code there."""
+    from .sym import PathCtx
+    pc = PathCtx.cur
+    if pc is None:
+        return
+    try:
+        rtol = float(args[0]) if len(args) > 0 else float(kw.get("rtol", 1e-5))
+        atol = float(args[1]) if len(args) > 1 else float(kw.get("atol", 1e-8))
+        pa, pb = _np.broadcast_arrays(_obj(a), _obj(b))
+        pairs = []
+        for p, q in zip(pa.flat, pb.flat):
+            if is_sym(p) or is_sym(q):
+                pairs.append((lift(p), lift(q)))
+        if pairs and len(pc.guards) < 40:
+            pc.guards.append((kind, pairs[:64], rtol, atol))
+    except Exception:      # noqa: BLE001 - recording must never disturb the run
+        pass
+
+
 class Mode:
     """Global switch: when symbolic is True, numeric allocations become object arrays."""
     symbolic = False
@@ -474,6 +496,7 @@ class SymNP(types.ModuleType):
 
     def isclose(self, a, b, *r, **k):
         if _has_sym(a) or _has_sym(b):
+            _record_guard("isclose", a, b, r, k)
             return _map(lambda p, q: (Sym(lift(p)) == q), a, b)   # exact equality over the reals
         if (isinstance(a, _np.ndarray) and a.dtype == object) or (isinstance(b, _np.ndarray) and b.dtype == object):
             return _np.isclose(_np.asarray(a, dtype=float), _np.asarray(b, dtype=float), *r, **k)
@@ -483,7 +506,8 @@ class SymNP(types.ModuleType):
         if isinstance(a, ShapeOnly) or isinstance(b, ShapeOnly):
             raise Unsupported("allclose on ShapeOnly")
         if _has_sym(a) or _has_sym(b):
-            e = self.isclose(a, b)
+            _record_guard("allclose", a, b, r, k)
+            e = _map(lambda p, q: (Sym(lift(p)) == q), a, b)
             return self.all(e)
         if (isinstance(a, _np.ndarray) and a.dtype == object) or (isinstance(b, _np.ndarray) and b.dtype == object):
             return _np.allclose(_np.asarray(a, dtype=float), _np.asarray(b, dtype=float), *r, **k)
@@ -612,6 +636,7 @@ class SymMath(types.ModuleType):
     @staticmethod
     def isclose(a, b, **k):
         if is_sym(a) or is_sym(b):
+            _record_guard("isclose", a, b, (), {"rtol": k.get("rel_tol", 1e-9), "atol": k.get("abs_tol", 0.0)})
             return Sym(lift(a)) == b
         return _math.isclose(a, b, **k)
 
